@@ -323,7 +323,11 @@ def seq_oracle(case):
 @st.composite
 def config(draw):
     n = draw(st.integers(0, 4))
-    names = [f"n{i}" for i in range(n)]
+    # element names: plain, with a leading underscore, with capitals
+    names = draw(st.lists(st.sampled_from(["n0", "n1", "n2", "n3", "_lam",
+                                           "_a1", "Xb", "long_name_7", "nu",
+                                           "__k"]),
+                          min_size=n, max_size=n, unique=True))
     mins, maxs, defaults = [], [], []
     for _ in range(n):
         kind = draw(st.sampled_from(["finite", "finite", "lower", "upper",
